@@ -223,10 +223,12 @@ class Transform:
         return ("T", s)
 
 
-def expected_value(kind, tf_mode, i):
+def expected_value(kind, tf_mode, i, offset=0):
     v = payload(kind, i)
     if tf_mode is None:
         return v
+    if tf_mode == "kd":
+        return ("KD", offset, v)
     saved = SCHED[0], list(LOG)
     SCHED[0] = None
     try:
@@ -274,7 +276,14 @@ class Spec(core.PropSpec):
         # the indices behind the key numbers: dense 0..n-1, or sparse / large ones (hash- or modulo-style key handling shows up)
         pool = [0, 1, 2, 3, 5, 7, 8, 16, 255, 256, 1000, 1024, 4099, 65536, 2 ** 31 + 5, 10 ** 12 + 1]
         keys = list(range(n)) if rw.random() < 0.6 else sorted(rw.sample(pool, n))
-        return dict(R=R, n=n, keys=keys, kind=rw.choice(KINDS), tf=rw.choice([None, "wrap", "inplace", "inplace"]), readers=readers,
+        tf = rw.choice([None, "wrap", "inplace", "inplace", "kd"])
+        if tf == "kd":
+            # the transform's parameter is changed between accesses (like scale_strength on a scheduled transform)
+            for ops in readers:
+                for k in range(len(ops)):
+                    if ro.random() < 0.25:
+                        ops.insert(k, ["retune", ro.choice([0, 10, 50, 100])])
+        return dict(R=R, n=n, keys=keys, kind=rw.choice(KINDS), tf=tf, readers=readers,
                     sched_seed=st("sched").getrandbits(32), choices=None)
 
     def shrink_candidates(self, plan):
@@ -302,7 +311,7 @@ class Spec(core.PropSpec):
         keys = plan.get("keys") or list(range(n))
         if len(keys) < n:
             keys = list(range(n))
-        readers = [[[op[0], keys[op[1]]] if op[0] == "get" and 0 <= op[1] < n else op for op in ops] for ops in plan["readers"]]
+        readers = [[[op[0], keys[op[1]]] if op[0] == "get" and 0 <= op[1] < n else list(op) for op in ops] for ops in plan["readers"]]
         R = len(readers)
         if R == 0 or n < 1 or any(op[0] == "get" and not (0 <= op[1] < n) for ops in plan["readers"] for op in ops):
             out.rejected = True
@@ -317,7 +326,19 @@ class Spec(core.PropSpec):
             _real = _os0.getpid
             _os0.getpid = lambda: 40000
             try:
-                ds = sdd.SharedDictDataset(Base(kind, max(keys) + 1), transform=Transform(tf) if tf else None)
+                tf_obj = None
+                if tf == "kd":
+                    from .simdata import OffsetKDTransform
+
+                    def _on_call():
+                        LOG.append(["tf", _who()])
+                        _yield("transform")
+
+                    OffsetKDTransform.on_call[0] = _on_call
+                    tf_obj = OffsetKDTransform(0)
+                elif tf:
+                    tf_obj = Transform(tf)
+                ds = sdd.SharedDictDataset(Base(kind, max(keys) + 1), transform=tf_obj)
             except Exception as e:
                 out.violate("C19:raises:" + type(e).__name__, "constructor", f"{type(e).__name__}: {e}")
                 return out, []
@@ -333,15 +354,22 @@ class Spec(core.PropSpec):
                     v.dataset = pickle.loads(pickle.dumps(ds.dataset))
                     views.append(v)
 
+            offsets = [0] * R
+
             def make(r):
                 def body():
                     for k, op in enumerate(readers[r]):
                         LOG.append(["inv", f"r{r}", k] + op)
                         _yield("invoke")
                         try:
-                            if op[0] == "get":
+                            if op[0] == "retune":
+                                views[r].transform.scale_strength(op[1] / 100)
+                                offsets[r] = op[1]
+                                results[(r, k)] = ("ok", None)
+                                LOG.append(["ret", f"r{r}", k, None])
+                            elif op[0] == "get":
                                 val = views[r][op[1]]
-                                results[(r, k)] = ("ok", val)
+                                results[(r, k)] = ("ok", val, offsets[r])
                                 LOG.append(["ret", f"r{r}", k, h(val)])
                             else:
                                 views[r].dispose()
@@ -383,6 +411,8 @@ class Spec(core.PropSpec):
         out.count("sched:context_switches", switches)
         out.count("logical:operations", sum(len(o) for o in readers))
         n_disp = sum(1 for ops in readers for op in ops if op[0] == "dispose")
+        if tf == "kd":
+            out.tags.append("kd-transform-with-retuning")
         out.count("fault:dispose", n_disp)
         out.tags.append("multi-reader" if R > 1 else "single-reader")
         # did a dispose land between another reader's check and its read/store?
@@ -430,6 +460,8 @@ class Spec(core.PropSpec):
         for pos, e in enumerate(hist):
             if e[0] == "inv":
                 a = dict(reader=e[1], k=e[2], op=e[3], idx=e[4] if e[3] == "get" else None, inv=pos, ret=None, loads=[], tfs=0, exc=None)
+                if e[3] == "retune":
+                    a["op"] = "retune"
                 acc[(e[1], e[2])] = a
                 cur[e[1]] = a
             elif e[0] == "load":
@@ -446,15 +478,17 @@ class Spec(core.PropSpec):
         gets = [a for a in acc.values() if a["op"] == "get"]
         disposes = [a for a in acc.values() if a["op"] == "dispose"]
         # ---- (1) value transparency, no exception; (2) transform exactly once ---------------------
-        for (r, k), (status, val) in sorted(results.items()):
+        for (r, k), res_ in sorted(results.items()):
+            status, val = res_[0], res_[1]
+            off = res_[2] if len(res_) > 2 else 0
             op = plan["readers"][r][k]
             if status == "exc":
-                what = "get" if op[0] == "get" else "dispose"
+                what = op[0]
                 out.violate(f"C19:raises:{type(val).__name__}", f"{what},{site}", f"reader r{r} op {k} {op}: {type(val).__name__}: {val}")
                 continue
             if op[0] != "get":
                 continue
-            exp = expected_value(kind, tf, op[1])
+            exp = expected_value(kind, tf, op[1], off)
             d = deep_diff(val, exp)
             if d:
                 out.violate("C19:wrong-value", f"tf={tf},{site}", f"reader r{r} op {k} get({op[1]}): {d}")
@@ -502,6 +536,8 @@ class Spec(core.PropSpec):
         if R == 1 and not any(a["exc"] for a in acc.values()):
             era_loaded = set()
             for a in sorted(acc.values(), key=lambda a: a["inv"]):
+                if a["op"] == "retune":
+                    continue
                 if a["op"] == "dispose":
                     era_loaded = set()
                     continue
